@@ -134,16 +134,23 @@ func runC03(c *vh.Ctx) {
 			}
 		}
 		// scope forms through Authorize: principal in E, action in [..], resource is T in E
-		if nGraphs%7 == 0 {
+		if nGraphs%5 == 0 {
 			for j := 0; j < n; j++ {
 				req := cedar.Request{Principal: uid(0), Action: uid(1 % n), Resource: uid(2 % n), Context: types.NewRecord(nil)}
-				pols := []*ast.Policy{
+				// the operator with LITERAL operands inside a condition: goes through Compile (constant folding)
+				litIn := &ast.Policy{Effect: ast.EffectPermit, Principal: ast.ScopeTypeAll{}, Action: ast.ScopeTypeAll{}, Resource: ast.ScopeTypeAll{},
+					Conditions: []ast.ConditionType{{Condition: ast.ConditionWhen, Body: inNode(lit(uid(0)), lit(uid(j)))}}}
+				litInSet := &ast.Policy{Effect: ast.EffectPermit, Principal: ast.ScopeTypeAll{}, Action: ast.ScopeTypeAll{}, Resource: ast.ScopeTypeAll{},
+					Conditions: []ast.ConditionType{{Condition: ast.ConditionWhen, Body: inNode(lit(uid(2%n)), lit(types.NewSet(uid(j), uid((j+1)%n))))}}}
+				litIsIn := &ast.Policy{Effect: ast.EffectPermit, Principal: ast.ScopeTypeAll{}, Action: ast.ScopeTypeAll{}, Resource: ast.ScopeTypeAll{},
+					Conditions: []ast.ConditionType{{Condition: ast.ConditionWhen, Body: ast.NodeTypeIsIn{NodeTypeIs: ast.NodeTypeIs{Left: lit(uid(1 % n)), EntityType: "G"}, Entity: lit(uid(j))}}}}
+				pols := []*ast.Policy{litIn, litInSet, litIsIn,
 					{Effect: ast.EffectPermit, Principal: ast.ScopeTypeIn{Entity: uid(j)}, Action: ast.ScopeTypeAll{}, Resource: ast.ScopeTypeAll{}},
 					{Effect: ast.EffectPermit, Principal: ast.ScopeTypeAll{}, Action: ast.ScopeTypeInSet{Entities: []types.EntityUID{uid(j), uid((j + 1) % n)}}, Resource: ast.ScopeTypeAll{}},
 					{Effect: ast.EffectPermit, Principal: ast.ScopeTypeAll{}, Action: ast.ScopeTypeAll{}, Resource: ast.ScopeTypeIsIn{Type: "G", Entity: uid(j)}},
 					{Effect: ast.EffectPermit, Principal: ast.ScopeTypeIsIn{Type: "H", Entity: uid(j)}, Action: ast.ScopeTypeAll{}, Resource: ast.ScopeTypeAll{}},
 				}
-				wants := []bool{reach[0][j], reach[1%n][j] || reach[1%n][(j+1)%n], reach[2%n][j], false}
+				wants := []bool{reach[0][j], reach[2%n][j] || reach[2%n][(j+1)%n], reach[1%n][j], reach[0][j], reach[1%n][j] || reach[1%n][(j+1)%n], reach[2%n][j], false}
 				for k, pol := range pols {
 					ip := vh.MkPolicy("p", pol)
 					d, _ := cedar.Authorize(vh.SliceIter{ip}, em, req)
